@@ -325,26 +325,23 @@ func genTokens(r *rng, idx int) srvCase {
 	c := srvCase{idx: idx, cfg: baseCfg(r, "tokens")}
 	root := c.cfg.root
 	a4 := randAddr(r, 0)
-	variants := []*net.UDPAddr{a4, udp(a4.IP, 1+r.intn(65535)), udp(mapped(a4.IP.To4()), a4.Port), randAddr(r, 0), randAddr(r, 1)}
+	other := randAddr(r, 0)
+	variants := []*net.UDPAddr{a4, udp(a4.IP, 1+r.intn(65535)), udp(mapped(a4.IP.To4()), a4.Port), other, randAddr(r, 1)}
 	id := idInBucket(r, root, r.intn(160))
 	var ih [20]byte
 	copy(ih[:], r.bytes(20))
 	// align the virtual clock somewhere in the 5-minute grid cell
 	c.evs = append(c.evs, sev{kind: "adv", adv: time.Duration(r.intn(300)) * time.Second})
-	var issued string
-	getTok := qpkt(a4, "get_peers", "gp", &krpc.MsgArgs{ID: id, InfoHash: ih})
-	c.evs = append(c.evs, getTok)
-	grab := func() sev {
-		return sev{kind: "adv", adv: 0, dyn: func(st *srvState, e *sev) { issued = st.lastTok[ipKey(a4.IP)] }}
+	var issued, otherTok string
+	issue := func() {
+		c.evs = append(c.evs, qpkt(a4, "get_peers", "gp", &krpc.MsgArgs{ID: id, InfoHash: ih}))
+		c.evs = append(c.evs, qpkt(other, "get_peers", "go", &krpc.MsgArgs{ID: id, InfoHash: ih}))
+		c.evs = append(c.evs, sev{kind: "adv", adv: 0, dyn: func(st *srvState, e *sev) {
+			issued = st.lastTok[ipKey(a4.IP)]
+			otherTok = st.lastTok[ipKey(other.IP)]
+		}})
 	}
-	c.evs = append(c.evs, grab())
-	steps := []time.Duration{0, 30 * time.Second, 4 * time.Minute, 5 * time.Minute, 30 * time.Second, 4 * time.Minute, 90 * time.Second, 5 * time.Minute, time.Minute}
-	for _, d := range steps {
-		if d > 0 {
-			c.evs = append(c.evs, sev{kind: "adv", adv: d})
-		}
-		src := variants[r.intn(len(variants))]
-		kind := r.intn(8)
+	write := func(src *net.UDPAddr, kind int) {
 		q := "announce_peer"
 		if r.intn(4) == 0 {
 			q = "put"
@@ -353,24 +350,36 @@ func genTokens(r *rng, idx int) srvCase {
 		e := sev{kind: "pkt", src: src}
 		e.dyn = func(st *srvState, e *sev) {
 			tok := issued
+			b := []byte(tok)
 			switch kind {
-			case 0, 1, 2:
-			case 3:
-				if len(tok) > 0 {
-					b := []byte(tok)
+			case 0: // as issued
+			case 1: // one bit flipped
+				if len(b) > 0 {
 					b[r.intn(len(b))] ^= byte(1 << r.intn(8))
 					tok = string(b)
 				}
-			case 4:
-				if len(tok) > 0 {
+			case 2: // last byte cut
+				if len(b) > 0 {
 					tok = tok[:len(tok)-1]
 				}
-			case 5:
-				tok += "x"
+			case 3: // first byte cut
+				if len(b) > 0 {
+					tok = tok[1:]
+				}
+			case 4: // a short prefix
+				if len(b) > 0 {
+					tok = tok[:1+r.intn(len(tok)-1)]
+				}
+			case 5: // extended
+				tok += string(r.bytes(1 + r.intn(3)))
 			case 6:
 				tok = ""
 			case 7:
 				tok = string(r.bytes(20))
+			case 8: // a genuine token of this server, issued to another IP
+				tok = otherTok
+			case 9: // one byte only
+				tok = string(r.bytes(1))
 			}
 			a := &krpc.MsgArgs{ID: id, InfoHash: ih, Token: tok, Port: &port, ImpliedPort: port%3 == 0}
 			if q == "put" {
@@ -381,6 +390,32 @@ func genTokens(r *rng, idx int) srvCase {
 			e.msg = &krpc.Msg{Q: q, Y: "q", T: "an", A: a}
 		}
 		c.evs = append(c.evs, e)
+	}
+	// phase A: every token mutation while the genuine token is fresh (well inside 10 minutes)
+	issue()
+	kinds := []int{0, 1, 2, 3, 4, 5, 6, 7, 8, 9}
+	for i := range kinds {
+		j := i + r.intn(len(kinds)-i)
+		kinds[i], kinds[j] = kinds[j], kinds[i]
+	}
+	for _, k := range kinds {
+		if r.intn(3) == 0 {
+			c.evs = append(c.evs, sev{kind: "adv", adv: time.Duration(10+r.intn(40)) * time.Second})
+		}
+		src := a4
+		if k == 0 {
+			src = variants[r.intn(3)]
+		}
+		write(src, k)
+	}
+	// phase B: the genuine token along the time axis, from every form of the address
+	issue()
+	steps := []time.Duration{0, 30 * time.Second, 4 * time.Minute, 5 * time.Minute, 30 * time.Second, 4 * time.Minute, 90 * time.Second, 5 * time.Minute, time.Minute}
+	for _, d := range steps {
+		if d > 0 {
+			c.evs = append(c.evs, sev{kind: "adv", adv: d})
+		}
+		write(variants[r.intn(len(variants))], 0)
 		if r.intn(3) == 0 {
 			c.evs = append(c.evs, qpkt(randAddr(r, famOf(r)), "get_peers", "g2", &krpc.MsgArgs{ID: id, InfoHash: ih, Want: wantChoices(r)}))
 		}
